@@ -661,7 +661,7 @@ func main() {
 		Name: "c29",
 		Rule: "OSM inputs (well formed: nodes on circles, open/closed ways either direction, multipolygon and plain relations over nodes/ways/relations present and missing, tag keys in and out of the mapping; and unconstrained ones with duplicate/extreme IDs and degenerate ways) through the feature source (memory and PBF, 1 and 3 goroutines) and the basic and compact world builders; non-trivial = a plain relation with a member that is a closed way or a multipolygon relation of the input",
 		Quick:    2500,
-		Thorough: 30000,
+		Thorough: 20000,
 		Corpus: func(c *hx.Ctx) {
 			// fixed (fixes/C29-relation-member-area-id.patch): a plain relation with a closed-way member and a
 			// multipolygon member; before the fix both members got the path / relation ID
